@@ -319,6 +319,9 @@ def run(ck):
     agg = Agg(ck)
     n = run_for(ck, radio, agg)
     ni = irq_config(radio, agg)
+    # the lite driver offers the same accessors on the same registers: judged by the same tables (as C20 does)
+    lite = Radio(ck, "rf24_lite", "RF24")
+    run_for(ck, lite, agg, lite=True)
     agg.flush()
     ck.floor("R10.1", "status property evaluations", n[0], 640)
     ck.floor("R10.1", "available/any evaluations", n[1], 380)
